@@ -190,6 +190,12 @@ def assign_alphabet(A, names):
         "@[sp+4]=@[sp+4]<<4": {m.ExprMem(sp + m.ExprInt(4, 32), 32): m.ExprMem(sp + m.ExprInt(4, 32), 32) << m.ExprInt(4, 32)},
         "@8[sp+5]=@[sp+4][12:20]": {m.ExprMem(sp + m.ExprInt(5, 32), 8): m.ExprMem(sp + m.ExprInt(4, 32), 32)[12:20]},
         "@[a]=@[a]>>1": {m.ExprMem(a, 32): m.ExprMem(a, 32) >> one},
+        # word-wise copy a -> sp (stored values are memory cells with contiguous sources) and misaligned reads of the copy
+        "@[sp+4]=@[a]": {m.ExprMem(sp + m.ExprInt(4, 32), 32): m.ExprMem(a, 32)},
+        "@[sp+8]=@[a+4]": {m.ExprMem(sp + m.ExprInt(8, 32), 32): m.ExprMem(a + m.ExprInt(4, 32), 32)},
+        "b=@[sp+5]": {b: m.ExprMem(sp + m.ExprInt(5, 32), 32)},
+        "b=@[sp+6]": {b: m.ExprMem(sp + m.ExprInt(6, 32), 32)},
+        "r=@16[sp+7]": {r: m.ExprMem(sp + m.ExprInt(7, 32), 16).zeroExtend(32)},
     }
     return [(n, table[n]) for n in names]
 
